@@ -32,7 +32,7 @@ var (
 	orc      *hx.Oracle
 	rep      *hx.Report
 	ctx      = context.Background()
-	features = api.CoreFeaturesV2 | experimental.CoreFeaturesTailCall
+	features = api.CoreFeaturesV2 | experimental.CoreFeaturesTailCall | experimental.CoreFeaturesThreads
 )
 
 type hostLog struct{ entries []string }
@@ -113,12 +113,25 @@ func trapClass(err error) string {
 		{"unreachable", "unreachable"}, {"integer divide by zero", "div0"}, {"integer overflow", "overflow"},
 		{"invalid conversion to integer", "invalid-conversion"}, {"out of bounds memory access", "oob-memory"},
 		{"invalid table access", "oob-table"}, {"indirect call type mismatch", "sig-mismatch"}, {"stack overflow", "stack-overflow"},
+		{"unaligned atomic", "unaligned-atomic"},
 	} {
 		if strings.Contains(s, k.pat) {
 			return "trap:" + k.cls
 		}
 	}
 	return "error:" + strings.SplitN(s, "\n", 2)[0]
+}
+
+// differSig names an interpreter/compiler difference.  One shape is a recorded finding (F50): an atomic access whose
+// address is BOTH unaligned and out of bounds traps on both engines, with different kinds - the interpreter tests
+// the alignment first (as the reference interpreter does), compiled code the bounds; everything else about the
+// two observations is equal.
+func differSig(a, b string) string {
+	fa, fb := strings.SplitN(a, " | ", 2), strings.SplitN(b, " | ", 2)
+	if len(fa) == 2 && len(fb) == 2 && fa[1] == fb[1] && fa[0] == "trap:unaligned-atomic" && fb[0] == "trap:oob-memory" {
+		return "F50:atomic-access-unaligned-and-out-of-bounds-traps-with-different-kinds"
+	}
+	return "C01:engines-differ"
 }
 
 // observe returns the canonical observation of one call: outcome | host log | memory | globals.
@@ -238,7 +251,7 @@ func replayFile(path string) {
 		}
 		engines = append(engines, inst)
 	}
-	useLean := !strings.Contains(strings.Join(rp.Module, " "), "v128") && !strings.Contains(strings.Join(rp.Module, " "), ":@") // SIMD and block parameters are outside the Lean fragment
+	useLean := !strings.Contains(strings.Join(rp.Module, " "), "v128") && !strings.Contains(strings.Join(rp.Module, " "), ":@") && !strings.Contains(strings.Join(rp.Module, " "), "memcat:") // SIMD and block parameters are outside the Lean fragment
 	if useLean {
 		for _, l := range m.Lines(1) {
 			if a := orc.Ask(l); a != "ok" {
@@ -274,7 +287,7 @@ func replayFile(path string) {
 		}
 		rep.Case(fmt.Sprintf("replay/c%d", c))
 		if len(obs) == 2 && obs[0] != obs[1] {
-			rep.Violate(hx.Violation{Kind: "impl-violation", Signature: "C01:engines-differ", What: fmt.Sprintf("replayed call %d: interpreter and compiler differ", c), Input: rp, Expected: obs[0], Actual: obs[1]})
+			rep.Violate(hx.Violation{Kind: "impl-violation", Signature: differSig(obs[0], obs[1]), What: fmt.Sprintf("replayed call %d: interpreter and compiler differ", c), Input: rp, Expected: obs[0], Actual: obs[1]})
 		} else if len(obs) == 2 && want != "exhausted" && want != obs[0] {
 			rep.Violate(hx.Violation{Kind: "impl-violation", Signature: "C01:engines-differ-from-spec", What: fmt.Sprintf("replayed call %d: engines differ from the Lean reference", c), Input: rp, Expected: want, Actual: obs[0]})
 		}
@@ -336,7 +349,7 @@ func runProgram(r *rand.Rand, pi int, cfg gen.Config, useLean bool) {
 		rep.Case(key)
 		rep.Count("outcome:" + strings.Fields(obs[0])[0])
 		if obs[0] != obs[1] {
-			rep.Violate(hx.Violation{Kind: "impl-violation", Signature: "C01:engines-differ", What: fmt.Sprintf("call %d (f%d): interpreter and compiler observations differ", c, fidx),
+			rep.Violate(hx.Violation{Kind: "impl-violation", Signature: differSig(obs[0], obs[1]), What: fmt.Sprintf("call %d (f%d): interpreter and compiler observations differ", c, fidx),
 				Input: rp, Expected: obs[0], Actual: obs[1]})
 			return
 		}
@@ -396,16 +409,17 @@ func main() {
 	for pi := 0; pi < progs; pi++ {
 		cfg := gen.Config{MaxFuncs: 1 + r.Intn(6), MaxDepth: 2 + r.Intn(4), MaxStmts: 1 + r.Intn(6), Floats: r.Intn(4) > 0, Memory: true, Imports: r.Intn(3), Bulk: r.Intn(2) == 0}
 		cfg.TailCalls = r.Intn(3) == 0
-		cfg.SIMD = r.Intn(4) == 0 // outside the Lean fragment: engines compared with each other only
+		cfg.SIMD = r.Intn(4) == 0        // outside the Lean fragment: engines compared with each other only
 		cfg.BlockParams = r.Intn(4) == 0 // likewise
-		if r.Intn(4) == 0 { // register-pressure / ABI-cliff profile: many params, results and locals
+		cfg.Atomics = r.Intn(4) == 0     // likewise (threads feature, single-threaded)
+		if r.Intn(4) == 0 {              // register-pressure / ABI-cliff profile: many params, results and locals
 			cfg.MaxParams, cfg.MaxResults, cfg.MaxLocals = 6+r.Intn(10), 1+r.Intn(5), 8+r.Intn(16)
 			cfg.MaxDepth = 2 + r.Intn(2)
 		}
 		if os.Getenv("HC01_V") != "" {
 			fmt.Fprintf(os.Stderr, "prog %d %+v\n", pi, cfg)
 		}
-		runProgram(r, pi, cfg, !*noLean && !cfg.SIMD && !cfg.BlockParams)
+		runProgram(r, pi, cfg, !*noLean && !cfg.SIMD && !cfg.BlockParams && !cfg.Atomics)
 	}
 	rep.Write(orc)
 }
